@@ -1,1 +1,96 @@
-//! Hooks for property C30.
+//! Hooks for property C30 (shared with C31): crate-private `GtState`, `UserHeader`,
+//! `GtExchangeVault` and `GtExchange` operations.
+use anchor_lang::prelude::*;
+
+use crate::states::{
+    gt::{GtExchange, GtExchangeVault, GtState},
+    user::UserHeader,
+    Store,
+};
+
+pub fn store_gt_mut(store: &mut Store) -> &mut GtState {
+    store.gt_mut()
+}
+
+pub fn gt_init(
+    gt: &mut GtState,
+    decimals: u8,
+    initial_minting_cost: u128,
+    grow_factor: u128,
+    grow_step: u64,
+    ranks: &[u64],
+) -> Result<()> {
+    gt.init(decimals, initial_minting_cost, grow_factor, grow_step, ranks)
+}
+
+pub fn gt_set_order_fee_discount_factors(gt: &mut GtState, factors: &[u128]) -> Result<()> {
+    gt.set_order_fee_discount_factors(factors)
+}
+
+pub fn gt_order_fee_discount_factor(gt: &GtState, rank: u8) -> Result<u128> {
+    gt.order_fee_discount_factor(rank)
+}
+
+pub fn gt_ranks(gt: &GtState) -> &[u64] {
+    gt.ranks()
+}
+
+pub fn gt_mint_to(gt: &mut GtState, user: &mut UserHeader, amount: u64) -> Result<()> {
+    gt.mint_to(user, amount)
+}
+
+pub fn gt_unchecked_burn_from(gt: &mut GtState, user: &mut UserHeader, amount: u64) -> Result<()> {
+    gt.unchecked_burn_from(user, amount)
+}
+
+pub fn gt_get_mint_amount(gt: &GtState, size_in_value: u128) -> Result<(u64, u128, u128)> {
+    gt.get_mint_amount(size_in_value)
+}
+
+pub fn gt_unchecked_request_exchange(
+    gt: &mut GtState,
+    user: &mut UserHeader,
+    vault: &mut GtExchangeVault,
+    exchange: &mut GtExchange,
+    amount: u64,
+) -> Result<()> {
+    gt.unchecked_request_exchange(user, vault, exchange, amount)
+}
+
+pub fn gt_unchecked_confirm_exchange_vault(
+    gt: &mut GtState,
+    vault: &mut GtExchangeVault,
+) -> Result<u64> {
+    gt.unchecked_confirm_exchange_vault(vault)
+}
+
+pub fn vault_init(
+    vault: &mut GtExchangeVault,
+    bump: u8,
+    store: &Pubkey,
+    time_window: u32,
+) -> Result<()> {
+    vault.init(bump, store, time_window)
+}
+
+pub fn exchange_init(
+    exchange: &mut GtExchange,
+    bump: u8,
+    owner: &Pubkey,
+    store: &Pubkey,
+    vault: &Pubkey,
+) -> Result<()> {
+    exchange.init(bump, owner, store, vault)
+}
+
+pub fn user_init(user: &mut UserHeader, store: &Pubkey, owner: &Pubkey, bump: u8) -> Result<()> {
+    user.init(store, owner, bump)
+}
+
+pub fn user_gt_total_minted(user: &UserHeader) -> u64 {
+    user.gt.total_minted
+}
+
+pub fn user_gt_last_minted_at(user: &UserHeader) -> i64 {
+    user.gt.last_minted_at
+}
